@@ -61,6 +61,34 @@ PROPS = {
     "C14": spec([reg("C14", 12000, 45, 2000000, 780)]),
     "C15": spec([reg("C15", 16000, 45, 3000000, 780)],
                 level="fault_enumeration"),
+    "C16": {
+        "engines": [{"binary": "yosched.tsan", "target": "build/yosched.tsan",
+                     "name": "sched",
+                     "quick": {"runs": 16000, "secs": 45},
+                     "thorough": {"runs": 3000000, "secs": 780}}],
+        "level": "exploration",
+        "rule": ("each run: a world on policy A updated before the threads "
+                 "start, 2-6 caller tasks with seeded scripts (calls through "
+                 "every route, resolve, erroring calls with a throwing "
+                 "handler, virtual_ptr make/copy/use/drop) and one task that "
+                 "loads, unloads, updates and calls policy B; a seeded "
+                 "scheduler releases one real thread at a time (yield points "
+                 "between operations and, through hook H2, inside yomm2); "
+                 "distinct = distinct (schedule, registry) signature, where "
+                 "the schedule signature hashes the sequence of task picks; "
+                 "non-trivial = at least 2 caller tasks and more scheduler "
+                 "steps than tasks"),
+        "components": REAL + STUB + "; threads are real std::thread objects, "
+                      "the choice of who runs is the simulator's",
+        "assumptions": COMMON_ASSUMPTIONS + [
+            "ThreadSanitizer (clang 14) with the scheduler hand-off hidden "
+            "from it (futex words touched only from uninstrumented code): "
+            "conflicting accesses of different tasks are reported although "
+            "they never overlap in real time; assumes TSan's shadow still "
+            "holds the earlier access (runs are short)",
+            "sensitivity shown with a counter added to method::resolve: "
+            "reported on the first run, minimised to two one-call tasks"],
+    },
     "C17": spec([reg("C17", 24000, 40, 4000000, 780)]),
     "C18": spec([reg("C18", 12000, 40, 2000000, 500),
                  reg("list", 40000, 30, 4000000, 300)]),
